@@ -437,3 +437,24 @@ class RefusalModel:
             except AnalysisError:
                 continue
         return None
+
+
+def differ_entry(a: "UfuncAnchors", x="u0", y="u1"):
+    """Is the block that checks dimensions and rescales the second operand entered whenever the two units are not
+    equal?  The test is split into conjuncts; each must be a comparison of the two unit objects themselves that is
+    implied by `x != y` (value inequality implies non-identity), so the conjunction holds whenever the units differ.
+    A conjunct that looks at anything else (spelling, a single attribute) can be false for units that differ in
+    scale or dimension.  -> (ok, offending conjuncts)"""
+    from engine.flow import decompose
+
+    atoms = []
+    decompose(a.differ_if.test, True, atoms)
+    bad = []
+    for text, truth, node in atoms:
+        ok = False
+        if isinstance(node, ast.Compare) and len(node.ops) == 1 and {norm(node.left), norm(node.comparators[0])} == {x, y}:
+            op = node.ops[0]
+            ok = (truth and isinstance(op, (ast.NotEq, ast.IsNot))) or (not truth and isinstance(op, (ast.Eq, ast.Is)))
+        if not ok:
+            bad.append(("" if truth else "not ") + text)
+    return not bad, bad
